@@ -34,12 +34,18 @@ RULES = {
     "C18": "one case = seeded lifecycle over {create writer (valid / budget too small / too large / zero threads) on either of two Index "
            "handles, rollback, drop, wait_merging_threads, attempt while locked, 2..3 racing creations from threads, kill a worker by "
            "I/O errors then drop, rollback under I/O errors then retry, wait_merging_threads with a merge in flight while two "
-           "threads try to create a writer; racing holders add+commit one document each} against a 1-bit lock model, on tantivy's file-based lock (70%) or the harness flock (30%). "
-           "Non-trivial: >=1 refused attempt or one race.",
+           "threads try to create a writer, drop with a backlog of uncommitted documents while two threads try to create a writer; "
+           "racing holders add+commit one document each} against a 1-bit lock model, on tantivy's file-based lock (70%) or the harness flock (30%). "
+           "Non-trivial: >=1 refused attempt or one race. Adjunct: the real MmapDirectory under strace -- its writer-lock lifecycle "
+           "(refused while alive, kept across rollback, released by drop / wait_merging_threads / failed construction) and the "
+           "contract the harness flock assumes (exclusive flock on lock files that are never unlinked or renamed) "
+           "(coverage.mmap_directory_adjunct).",
     "C20": "one case = an index written by a seeded history under short writes / EINTR on every writer; then for every file of every "
            "committed segment: every single-bit flip of the body (files with body <= 96 B in quick, <= 4 KiB in thorough; else sampled "
            "positions), every truncation length (sampled for larger files in quick), extensions by 1..64 bytes, multi-byte "
-           "substitutions, and footer format versions outside [4,7]; each damaged copy is validated. evaluations = executions + "
+           "substitutions, and footer format versions outside [4,7] (refused through open_read and get_file_handle alternately); each "
+           "damaged copy is validated; every intact file is read back through open_read and get_file_handle and compared with the "
+           "written body. evaluations = executions + "
            "damage cases; non-trivial: >=1 damage case.",
     "C11": "one base case = swarm configuration + operation history + schedule seed, first executed fault-free (which records its "
            "N storage operations), then re-executed once per fault point: an I/O error at storage op k -- quick: 24 stratified k "
